@@ -1,7 +1,9 @@
 import FP.Drv.Util
 import FP.Model.Syntax
+import FP.Model.Eval
+import FP.Drv.Val
 namespace FP.Drv.C11
-open FP FP.Model.Syntax
+open FP FP.Model.Syntax FP.Model.Eval
 
 def hx (s : String) : String := hexBytes s.toUTF8.toList
 
@@ -36,10 +38,32 @@ where
 
 def str? (h : String) : Option String := (unhexBytes h).bind fun bs => String.fromUTF8? (ByteArray.mk bs.toArray)
 
+/-- environment on the `ev` line: `-` or `name=tok,tok;name=;…` (hex names, value tokens of FP.Drv.Val) -/
+def parseEnv (s : String) : Option Env :=
+  if s == "-" then some [] else
+  (s.splitOn ";").mapM fun p =>
+    match p.splitOn "=" with
+    | [n, vs] => do
+        let name ← str? n
+        let vals ← if vs == "" then some [] else (vs.splitOn ",").mapM FP.Drv.parseVal
+        pure (name, vals)
+    | _ => none
+
+def showOutcome : Outcome → String
+  | .result c => "ok:" ++ FP.Drv.showVals c
+  | .evalError _ => "err:eval"
+  | .compileError => "err:compile"
+  | .unmodelled => "skip"
+  | .crash => "panic"
+
 def handle : List String → Option String
   | ["syn", h] => do
       let s ← str? h
       pure (match parse s with | some e => "ok " ++ canon e | none => "err")
+  | ["ev", h, envs] => do
+      let s ← str? h
+      let env ← parseEnv envs
+      pure (showOutcome (run FP.Gen.FuncTable.baseTable s env []))
   | _ => none
 
 def handleRef : List String → Option String := fun _ => none
